@@ -13,6 +13,7 @@ import (
 	"runtime"
 	"runtime/debug"
 	"sort"
+	"strconv"
 	"strings"
 	"sync"
 	"sync/atomic"
@@ -466,6 +467,11 @@ func RunWorker(o Options) int {
 
 	skipping := o.ResumeSub != ""
 	last := time.Now()
+	sinceCheck := 0
+	recycleBytes := uint64(700 << 20)
+	if v, err := strconv.Atoi(os.Getenv("VERIF_RECYCLE_MB")); err == nil && v > 0 {
+		recycleBytes = uint64(v) << 20
+	}
 	for si := range m.Subs {
 		s := &m.Subs[si]
 		if len(s.Modes) > 0 && !contains(s.Modes, o.Mode) {
@@ -492,6 +498,21 @@ func RunWorker(o Options) int {
 			if time.Since(last) > 2*time.Second {
 				w.snapshot(false)
 				last = time.Now()
+			}
+			// Types built with reflect.StructOf and the codecs cached for them are never freed:
+			// once the heap has grown past the limit the worker hands the rest of its shard to a
+			// fresh process (the supervisor resumes at the next index).
+			if sinceCheck++; sinceCheck >= 64 && !s.Serial {
+				sinceCheck = 0
+				var ms runtime.MemStats
+				runtime.ReadMemStats(&ms)
+				if ms.HeapAlloc > recycleBytes {
+					w.writeDistinct()
+					w.snapshot(true)
+					w.emit(msg{"t": "recycle", "at": fmt.Sprintf("%s:%d", s.Name, idx+1), "heap": ms.HeapAlloc})
+					w.emit(msg{"t": "done"})
+					return 0
+				}
 			}
 		}
 	}
